@@ -80,7 +80,16 @@ FunctionSubstringAfter::execute(
 
         if (theSecondStringLength == 0)
         {
-            return arg1;
+            // The result is the first argument converted to a string,
+            // not the argument itself, which may be of another type.
+            if (arg1->getType() == XObject::eTypeString)
+            {
+                return arg1;
+            }
+            else
+            {
+                return executionContext.getXObjectFactory().createString(theFirstString);
+            }
         }
         else
         {
